@@ -850,6 +850,65 @@ func scenarios() []*sched.Scenario {
 			vrt.Fail("apply-not-atomic", "Apply(+1,+2) || Apply(+2,+3) returned %s and %s, final order %s: no serial order explains this", r1, r2, fin)
 		}
 	}})
+	// every writer that works element by element (Add, Delete, AddAll, DeleteAll) against every atomic bulk operation
+	// (Replace, Apply, Compute) on overlapping elements: results and final contents (with insertion order) are those
+	// of one of the two serial orders, computed on fresh sets
+	{
+		type op struct {
+			name string
+			run  func(s ds.Set[int]) string
+		}
+		sls := func(x ds.ReadableSet[int]) string { l := x.ToSlice(); sort.Ints(l); return fmt.Sprint(l) }
+		muts := func(m ds.SetMutations[int]) string { return "+" + sls(m.AddedElements()) + "-" + sls(m.DeletedElements()) }
+		elementwise := []op{
+			{"Add(2)", func(s ds.Set[int]) string { return fmt.Sprint(s.Add(2)) }},
+			{"Add(5)", func(s ds.Set[int]) string { return fmt.Sprint(s.Add(5)) }},
+			{"Delete(2)", func(s ds.Set[int]) string { return fmt.Sprint(s.Delete(2)) }},
+			{"Delete(1)", func(s ds.Set[int]) string { return fmt.Sprint(s.Delete(1)) }},
+			{"AddAll(2,5)", func(s ds.Set[int]) string { return sls(s.AddAll(ds.NewSet(2, 5))) }},
+			{"DeleteAll(1,2)", func(s ds.Set[int]) string { return sls(s.DeleteAll(ds.NewSet(1, 2))) }},
+		}
+		bulk := []op{
+			{"Replace(2,3,4)", func(s ds.Set[int]) string { return sls(s.Replace(ds.NewSet(2, 3, 4))) }},
+			{"Apply(+4,-2)", func(s ds.Set[int]) string { return muts(s.Apply(mut([]int{4}, []int{2}))) }},
+			{"Compute(2?+5-2:+2)", func(s ds.Set[int]) string {
+				return muts(s.Compute(func(r ds.ReadableSet[int]) ds.SetMutations[int] {
+					if r.Has(2) {
+						return mut([]int{5}, []int{2})
+					}
+					return mut([]int{2}, nil)
+				}))
+			}},
+		}
+		for _, a := range elementwise {
+			for _, b := range bulk {
+				a, b := a, b
+				allowed := map[string]bool{}
+				for _, ab := range []bool{true, false} {
+					s := ds.NewSet(1, 2, 3)
+					var ra, rb string
+					if ab {
+						ra = a.run(s)
+						rb = b.run(s)
+					} else {
+						rb = b.run(s)
+						ra = a.run(s)
+					}
+					allowed[fmt.Sprint(ra, " ", rb, " ", s.ToSlice())] = true
+				}
+				out = append(out, &sched.Scenario{Name: "atomic-pair/" + a.name + "-vs-" + b.name, Run: func() {
+					s := ds.NewSet(1, 2, 3)
+					var ra, rb string
+					vrt.Par(func() { ra = a.run(s) }, func() { rb = b.run(s) })
+					got := fmt.Sprint(ra, " ", rb, " ", s.ToSlice())
+					vrt.Observe("final", got)
+					if !allowed[got] {
+						vrt.Fail("not-serializable", "%s || %s on {1,2,3} gave (results, final) %s; the two serial orders give %v", a.name, b.name, got, allowed)
+					}
+				}})
+			}
+		}
+	}
 	out = append(out, &sched.Scenario{Name: "add-delete-has-linearizable", Run: func() {
 		s := ds.NewSet[int]()
 		r := &rec{}
